@@ -390,13 +390,21 @@ class World:
                 elif isinstance(x, (ast.Import, ast.ImportFrom)):
                     for al in x.names:
                         self.module_names.add((al.asname or al.name).split(".")[0])
-        self.records = record_types(self.mod)
-        self.star_import = any(isinstance(x, ast.ImportFrom) and any(al.name == "*" for al in x.names) for x in ast.walk(self.mod.tree))
-        self.imports = set()
-        for st_ in ast.walk(self.mod.tree):
-            if isinstance(st_, (ast.Import, ast.ImportFrom)):
-                for al in st_.names:
-                    self.imports.add((al.asname or al.name).split(".")[0])
+        static = getattr(self.mod, "_c04_static", None)
+        if static is None:
+            # facts about the module text that every world shares (computed once per module object)
+            imports, star = set(), False
+            for st_ in ast.walk(self.mod.tree):
+                if isinstance(st_, (ast.Import, ast.ImportFrom)):
+                    for al in st_.names:
+                        imports.add((al.asname or al.name).split(".")[0])
+                        star = star or (isinstance(st_, ast.ImportFrom) and al.name == "*")
+            static = (record_types(self.mod), star, imports)
+            try:
+                self.mod._c04_static = static
+            except Exception:  # noqa
+                pass
+        self.records, self.star_import, self.imports = static
         self.class_consts = {}
         for c in reversed(chain):
             cdef = self.mod.classes.get(c)
@@ -2303,6 +2311,10 @@ class OP4Eval(AutoEvaluator):
         if name in ("struct.Struct",) and n == 1:
             t = as_txt(pos[0], True)
             return StructV(t) if t is not None else Unknown("struct format")
+        if name in ("struct.pack", "struct.unpack", "struct.Struct", "struct.calcsize") and n >= 1 and is_rat(pos[0]) and pos[0].is_const():
+            why = f"{name} with a number where the format string belongs"
+            W.crash(node, why + " (TypeError)", self.qual)
+            return Bad(why)
         if name == "struct.pack" and n >= 1:
             t = as_txt(pos[0], True)
             if t is None:
